@@ -73,6 +73,13 @@ def allowlist_configs(tier):
         out.append(dict(source='yaml-with-openlineage-section', env=None, ref=list(s),
             yaml='openlineage:\n  url: "http://127.0.0.1:9"\n  heartbeat_interval: 10\n' + text))
 
+    # entries written the way the docs list histograms ('<name>_histogram', '*_histogram'): they name histogram facets only, a counter
+    # or gauge called <name> is not covered by them
+    for s in [('*_histogram',), ('secret_metric_histogram',), ('lat_ms_histogram', 'frames_total'), ('frames_*_histogram',)]:
+        out.append(dict(source='env-histogram-entries', env=','.join(s), yaml=None, ref=list(s)))
+        out.append(dict(source='yaml-histogram-entries', env=None, ref=list(s),
+                        yaml='safe_metrics:\n' + ''.join(f'  - "{e}"\n' for e in s)))
+
     # a file that configures no list at all, nothing in the environment: nothing is configured -> lock-down
     out.append(dict(source='yaml-no-key', env=None, yaml='openlineage:\n  heartbeat_interval: 10\n', ref=[]))
     out.append(dict(source='yaml-null-list', env=None, yaml='safe_metrics:\n', ref=[]))
